@@ -413,6 +413,17 @@ func rulesC01(c *Ctx) {
 	})
 
 	c.Rule("R-C01-10", "the plumbing the other rules presuppose: the reader reads one message per iteration and dispatches it (responses by id, requests to acceptRequest), start marks the reader as running before it starts it, and Await hands the caller the response's error or decodes its result", func() {
+		// the reader is started only after the handler has been bound: a message that arrives at once must find it
+		nc := c.Fn(pJ, "", "NewConnection")
+		ncg := nc.Graph()
+		handlerF := c.Field(pJ, "Connection", "handler")
+		startM := c.FnObj(pJ, "Connection", "start")
+		var bindV = -1
+		for _, w := range nc.FieldWrites(nc.Body, handlerF, false) {
+			bindV = ncg.VertexOf(w)
+		}
+		sv := ncg.callVertices(startM)
+		c.Check(bindV >= 0 && len(sv) == 1 && ncg.Dominates(bindV, sv[0]) && bindV != sv[0], "NewConnection:handler-bound-before-start", nc, nil, "c.handler is assigned before c.start launches the reader goroutine")
 		ri := c.Fn(pJ, "Connection", "readIncoming")
 		g := ri.Graph()
 		readM := c.P.StdFunc(modPath+"/"+pJ, "Reader", "Read")
